@@ -68,6 +68,7 @@ if job["mode"] == "import":
         kwargs["text_factory"] = PausingTextFactory(*job["pause"])
     if job.get("wait_for"):
         wait_for(job["wait_for"])
+        time.sleep(job.get("linger", 0))
     trace = conctrace.Trace(job["tmp"]) if job.get("trace") else None
     try:
         try:
@@ -191,7 +192,10 @@ def trace_conformance(ctx, res, path, tag, kwargs=None, expect_tempfile=True):
     for nm in names:
         seq = [e for e in events if e[1] == nm and e[0] in ("open", "unlink")]
         kinds = [(e[0], e[2] if e[0] == "open" else None) for e in seq]
-        wrote = any(k == "open" and m and ("w" in m or "x" in m or "+" in m) for k, m in kinds)
+        # written: opened for writing by name, or created by mkstemp (O_EXCL) and written through the descriptor it
+        # returned (os.fdopen) - no by-name event exists for that write
+        wrote = any(k == "open" and m and ("w" in m or "x" in m or "+" in m) for k, m in kinds) or \
+            any(e[0] == "mkstemp" and e[1] == nm for e in events)
         read = any(k == "open" and m and m.startswith("r") for k, m in kinds)
         unl = [i for i, (k, m) in enumerate(kinds) if k == "unlink"]
         if not (wrote and read and len(unl) == 1 and unl[0] == len(kinds) - 1):
@@ -365,7 +369,9 @@ def run(ctx):
                               stdout=subprocess.PIPE, stderr=subprocess.DEVNULL, text=True)
         pa = subprocess.Popen(job_args(py, worker, mode="import", tmp=shared2, inp=inputs[ai][0], kwargs=inputs[ai][1],
                                        out=os.path.join(ctx.scratch, tag + "_a.db"), wait_for=[in_window, b_done],
-                                       done_flag=a_done, trace=ta),
+                                       # in the first combination the parked import's intermediate file has been lying
+                                       # there untouched for more than a second when the other import starts
+                                       linger=1.3 if ci == 0 else 0, done_flag=a_done, trace=ta),
                               stdout=subprocess.PIPE, stderr=subprocess.DEVNULL, text=True)
         try:
             so_a, _ = pa.communicate(timeout=300)
